@@ -608,7 +608,19 @@ def run_real(env: Env, case, steps=()):
         try:
             with warnings.catch_warnings(), amb:
                 warnings.simplefilter("ignore")
-                if ctor == "if_":
+                if case.get("kwcall"):  # every parameter by keyword
+                    if ctor == "if_":
+                        outs = f(cond=given["cond"], else_branch=cbs["else_branch"], then_branch=cbs["then_branch"])
+                    elif ctor == "loop":
+                        outs = f(body=cbs["body"], v_initial=operands["v_initial"], cond=given.get("cond"), M=given.get("M"))
+                    elif ctor == "scan":
+                        outs = f(body=cbs["body"], num_scan_inputs=case["ints"]["num_scan_inputs"],
+                                 initial_state_and_scan_inputs=operands["initial_state_and_scan_inputs"],
+                                 scan_input_axes=case.get("axes"), **case.get("scan_attrs", {}))
+                    else:
+                        outs = f(body=cbs["body"], additional_inputs=operands["additional_inputs"],
+                                 input_sequence=singles["input_sequence"])
+                elif ctor == "if_":
                     outs = f(given["cond"], then_branch=cbs["then_branch"], else_branch=cbs["else_branch"])
                 elif ctor == "loop":
                     outs = f(given.get("M"), given.get("cond"), v_initial=operands["v_initial"], body=cbs["body"])
@@ -1061,6 +1073,8 @@ def finish_case(case, rng, container=None):
         case["opcont"] = "tuple"
     if ctor != "if_" and "dupvar" not in case and rng.random() < 0.15:
         case["dupvar"] = True
+    if "kwcall" not in case and rng.random() < 0.15:
+        case["kwcall"] = True
     if ctor != "if_" and "rel" not in case:
         case["rel"] = rng.choice(RELATIONS) if rng.random() < 0.6 else "same"
     cont = container or rng.choice(CONTAINERS_MAIN)
@@ -2076,7 +2090,7 @@ def _run(ck: core.Check, env: Env, info):
         nops = sum(len(v) for v in case.get("lists", {}).values())
         key = (case["mod"], case["ctor"], repr(case.get("lists")), repr(case.get("singles")), repr(case.get("ints")),
                repr(case.get("axes")), repr(case.get("scan_attrs")), case.get("rel"), case.get("ambient"),
-               case.get("M"), repr(case.get("cond")), case.get("if_cond"), case.get("opcont"), case.get("dupvar"), repr(sorted((r, c["beh"], c.get("n"), c.get("form")) for r, c in case["cbs"].items())))
+               case.get("M"), repr(case.get("cond")), case.get("if_cond"), case.get("opcont"), case.get("dupvar"), case.get("kwcall"), repr(sorted((r, c["beh"], c.get("n"), c.get("form")) for r, c in case["cbs"].items())))
         ck.count(key if (nops >= 1 or not all_good(case)) else None)
         stats["ctor"][case["ctor"]] = stats["ctor"].get(case["ctor"], 0) + 1
         stats["stage"][obs["stage"]] = stats["stage"].get(obs["stage"], 0) + 1
